@@ -27,6 +27,10 @@ def expr_equals(self, other):
             if not s == o:
                 return False
         else:
+            # Operators that carry data besides their operands (base
+            # form operators) must agree on that data as well
+            if not s._ufl_expr_data_equals_(o):
+                return False
             # Delve into subtrees
             so = s.ufl_operands
             oo = o.ufl_operands
